@@ -831,4 +831,30 @@ impl PeerHandler {
     pub fn verif_left(piece_length: usize) -> Vec<(usize, usize)> {
         PieceRx::left(piece_length).into_iter().collect()
     }
+
+    /// The transfer statistics alone: 'd'/'u' add downloaded/uploaded bytes, 'x' counts an
+    /// unexpected block, anything else is one sync-stats timer tick (as `timeout_sync_stats`);
+    /// returns what each tick with a full window reports to the manager.
+    pub fn verif_stats_run(ops: &[(char, usize)]) -> Vec<(Option<u32>, Option<u32>, usize)> {
+        let mut stats = Stats::new();
+        let mut reports = vec![];
+        for (op, amount) in ops {
+            match op {
+                'd' => stats.update_downloaded(*amount),
+                'u' => stats.update_uploaded(*amount),
+                'x' => stats.increment_unexpected_piece(),
+                _ => {
+                    if stats.downloaded.len() == MAX_STATS_QUEUE_SIZE {
+                        reports.push((
+                            stats.downloaded_rate(),
+                            stats.uploaded_rate(),
+                            stats.unexpected_blocks(),
+                        ));
+                    }
+                    stats.shift();
+                }
+            }
+        }
+        reports
+    }
 }
